@@ -31,6 +31,7 @@ CONSTS = [0.5, 1.0, 2.0, -1.5, 3.0]
 WVEC = [0.5, -1.0, 2.0]  # captured array constant of the "addw" callable (first n entries)
 USER_TAGS = ["a", "b", "c", "d", "e", "f", "g", "h", "i", "j", "k", "l"]
 U = 2.0**-23  # 2x the float32 unit roundoff
+EMPTY_TAG = "empty_string_tag"  # klass of the finding: a record point tagged "" cannot be jumped to
 
 
 # ------------------------------------------------------------------------------------------
@@ -388,7 +389,7 @@ def cmp_exact(got, exp):
             return f"leaf {i}: shape {ga.shape} != {ea.shape}"
         if hasattr(g, "dtype") and hasattr(e, "dtype") and ga.dtype != ea.dtype:
             return f"leaf {i}: dtype {ga.dtype} != {ea.dtype}"
-        if not np.array_equal(ga, ea):
+        if not np.array_equal(ga, ea, equal_nan=True):
             return f"leaf {i}: {ga.tolist()} != {ea.tolist()} (exact)"
     return None
 
@@ -404,8 +405,12 @@ def cmp_num(got, exp):
         ga = np.asarray(g, dtype=np.float64)
         if ga.shape != e.v.shape:
             return f"leaf {i}: shape {ga.shape} != {e.v.shape}"
-        tol = 4.0 * e.e + 1e-30
-        if not np.all(np.abs(ga - e.v) <= tol):
+        with np.errstate(all="ignore"):
+            tol = 4.0 * e.e + 1e-30
+            # components that may leave the float32 range are left to the exact comparison
+            inrange = np.isfinite(e.v) & np.isfinite(tol) & (np.abs(e.v) + tol < 1e37)
+            bad = inrange & ~(np.abs(ga - e.v) <= tol)
+        if np.any(bad):
             return f"leaf {i}: {ga.tolist()} vs float64 reference {e.v.tolist()} (tolerance {np.max(tol):.3g})"
     return None
 
@@ -449,7 +454,7 @@ def _same_view(d, dbg, what, case):
 def tag_index(frames):
     idx = {}
     for i, fr in enumerate(frames):
-        if fr["tag"]:
+        if fr["tag"] is not None:
             idx.setdefault(fr["tag"], []).append(i)
     return idx
 
@@ -534,7 +539,12 @@ def check_case(case, ctx=None):
 
     # ---- jump -------------------------------------------------------------------------
     for t, where in sorted(tags.items()):
-        d = dbg.jump(t)
+        try:
+            d = dbg.jump(t)
+        except KeyError:
+            if t != "":
+                raise
+            raise Violation(EMPTY_TAG, "a record point tagged '' was recorded but jump('') raises KeyError", case)
         if d.ptr not in where:
             raise Violation("nav:jump", f"jump({t!r}) lands on frame {d.ptr}, frames tagged {t!r}: {where}", case)
         _same_view(d, dbg, f"jump({t!r})", case)
@@ -639,6 +649,8 @@ def analyse(case):
             if s["op"] == "rec" and s["fn"] in N_INNER:
                 classes.add("nested-record-point")
             for t in [s.get("tag")] + list(s.get("itags", [])):
+                if t == "":
+                    classes.add("empty-string-tag")
                 if t is not None:
                     if t in tags_seen:
                         classes.add("duplicate-tag")
@@ -733,11 +745,14 @@ def case_strategy(draw):
     used_tags = []
 
     def new_tag():
-        r = draw(st.integers(0, 11))
-        if r < 3:
+        r = draw(st.integers(0, 23))
+        if r < 6:
             return None
-        if r == 3 and used_tags:
+        if r in (6, 7) and used_tags:
             return draw(st.sampled_from(used_tags))  # duplicate tag
+        if r == 8 and "" not in used_tags:
+            used_tags.append("")  # the empty string is a `str` tag like any other
+            return ""
         t = free_tags.pop(0)
         used_tags.append(t)
         return t
@@ -779,16 +794,50 @@ def case_strategy(draw):
     return {"n": n, "inputs": inputs, "stmts": stmts, "ret": ret, "walk": walk, "remix": remix}
 
 
+def has_empty_tag(case):
+    return any(t == "" for s in case["stmts"] for t in [s.get("tag")] + list(s.get("itags", [])))
+
+
+def without_empty_tag(case):
+    out = dict(case)
+    out["stmts"] = []
+    for s in case["stmts"]:
+        s = dict(s)
+        if s.get("tag") == "":
+            s["tag"] = None
+        if "itags" in s:
+            s["itags"] = [None if t == "" else t for t in s["itags"]]
+        out["stmts"].append(s)
+    return out
+
+
+def probes(ctx):
+    """minimal case of the open finding `empty_string_tag`"""
+    import jax.numpy as jnp
+    from genjax.time_travel import rec, time_machine
+
+    dbg = time_machine(lambda x: rec(jnp.sin, "")(x))(jnp.float32(0.5))
+    try:
+        fails = dbg.jump("").ptr != 1
+    except KeyError:
+        fails = True
+    ctx.probe(EMPTY_TAG, fails, "time_machine(lambda x: rec(jnp.sin, '')(x))(0.5).jump('') must land on frame 1")
+
+
 def run(ctx):
     # no jax.clear_caches(): the only XLA programs are the eager primitives of a fixed small set of
     # (primitive, shape, weak-type) signatures (measured: the count saturates), and clearing would
     # recompile all of them
     def chk(case):
+        if has_empty_tag(case) and ctx.is_open(EMPTY_TAG):
+            # open finding: steer around the input class (same program, the tag dropped)
+            ctx.exclude(EMPTY_TAG)
+            case = without_empty_tag(case)
         nt, classes = analyse(case)
         ctx.note_case(case, nontrivial=nt, classes=classes)
         check_case(case, ctx)
 
-    ctx.run_hypothesis(case_strategy(), chk, ctx.pick(60, 1200), salt="main")
+    ctx.run_hypothesis(case_strategy(), chk, ctx.pick(60, 1500), salt="main")
 
 
 def replay(ctx, case):
